@@ -1775,7 +1775,7 @@ def _offset(
                     a.lineno = flno + dln
                     a.col_offset = fcolo + dcol_offset
 
-            elif dln and (flno := getattr(a, 'lineno', None)) is not None and flno >= lno:  # TypeIgnore, just a line number, the comment is the last thing on its line so if it is on the line of the offset point then it is after it
+            elif dln and (flno := getattr(a, 'lineno', None)) is not None and (flno > lno or (flno == lno and not colo)):  # TypeIgnore, just a line number, if it is on the line of the offset point past column 0 then its comment may be on either side of the point (an append after the line comes after the comment) and there is no column to tell, leave it
                 a.lineno = flno + dln
 
             if recurse:
